@@ -61,6 +61,8 @@ PRESETS = [
     ("random-ids", dict(id_mode="random", nvars=4), ("sum-product",)),
     ("nonsmooth", dict(defect="nonsmooth", out_units=2), ("sum-product",)),
     ("nondecomp", dict(defect="nondecomp", out_units=2), ("sum-product",)),
+    ("nondecomp3", dict(defect="nondecomp3", out_units=2, nvars=4), ("sum-product",)),
+    ("nonsmooth-const", dict(defect="nonsmooth-const", out_units=2), ("sum-product",)),
     ("structured", dict(structured=True, max_reps=3, nvars=5), ("sum-product",)),
     ("samekind-fold", dict(same_kind_all_vars=True, nvars=5, structured=True, share_prob=0.0, max_units=2), ("sum-product",)),
 ]
